@@ -112,7 +112,10 @@ pub fn gen_resp_head(ctx: &mut Ctx, max_generic: usize, allow_over: bool) -> Res
         // special fields, inserted at drawn positions as long as the limit allows
         let mut extra: Vec<Field> = Vec::new();
         match ctx.draw(4) {
-            0 => extra.push(Field::plain("Content-Length", &ctx.range(0, 5000).to_string())),
+            0 => {
+                let z = if ctx.chance(1, 5) { "0".repeat(ctx.range(1, 30)) } else { String::new() };
+                extra.push(Field::plain("Content-Length", &format!("{}{}", z, ctx.range(0, 5000))))
+            }
             1 => extra.push(Field::plain("Transfer-Encoding", "chunked")),
             _ => {}
         }
@@ -137,6 +140,11 @@ pub fn gen_resp_head(ctx: &mut Ctx, max_generic: usize, allow_over: bool) -> Res
                 f.name = if ctx.flip() { name.to_ascii_uppercase() } else { name.clone() };
                 extra.push(f);
             }
+        }
+        if ctx.chance(1, 150) {
+            // a legal head of more than 64 KiB
+            let n = ctx.range(65_400, 66_000);
+            extra.push(Field { name: "X-Big".into(), ows_before: b" ".to_vec(), value: vec![b'v'; n], ows_after: Vec::new() });
         }
         for f in extra {
             if fields.len() >= 128 {
@@ -337,6 +345,13 @@ fn parse_req_n(n: usize, b: &[u8]) -> Result<Option<(usize, Request<()>)>, Error
     })
 }
 
+fn maybe_giant(ctx: &mut Ctx, v: &mut Vec<Field>) {
+    if !v.is_empty() && ctx.chance(1, 120) {
+        let i = ctx.draw_usize(v.len());
+        v[i].value = vec![b'g'; ctx.range(65_300, 66_000)];
+    }
+}
+
 fn gen_fields_for_limit(ctx: &mut Ctx, n: usize) -> Vec<Field> {
     let count = match ctx.draw(6) {
         0 => n,
@@ -351,7 +366,8 @@ fn gen_fields_for_limit(ctx: &mut Ctx, n: usize) -> Vec<Field> {
 pub fn c20(ctx: &mut Ctx) -> R {
     let limit = *ctx.pick(&[0usize, 1, 4, 128]);
     let is_request = ctx.sub == 1;
-    let fields = gen_fields_for_limit(ctx, limit);
+    let mut fields = gen_fields_for_limit(ctx, limit);
+    maybe_giant(ctx, &mut fields);
     let over = fields.len() > limit;
     let tail = gen_tail(ctx);
     // ---- build the head
@@ -363,7 +379,7 @@ pub fn c20(ctx: &mut Ctx) -> R {
             2 => "X".to_string(),
             _ => ctx.pick(&crate::refs::METHODS).to_string(),
         };
-        let target = *ctx.pick(&["/", "/a/b?x=1&y=2", "*", "http://a.test:8080/p", "a.test:443", "/%7Euser/file.txt"]);
+        let target = *ctx.pick(&["/", "/a/b?x=1&y=2", "*", "http://a.test:8080/p", "a.test:443", "/%7Euser/file.txt", "urn:example:animal:ferret:nose", "mailto:x@y.test", "/;p=1?q", "//double/slash"]);
         http11 = ctx.flip();
         status = 0;
         let mut b = Vec::new();
